@@ -73,9 +73,23 @@ func copyBlock(v reflect.Value, block Block) error {
 		}
 	}
 
-	stored := map[string]string{} // struct field index path -> block key stored there
+	type storedAt struct {
+		index []int // struct field index path
+		key   string
+	}
+	var stored []storedAt // where each block key (and the block name) was stored
+	overlaps := func(a, b []int) bool {
+		// one index path is a prefix of the other: the same field,
+		// or an embedded struct and one of its promoted fields
+		for i := 0; i < len(a) && i < len(b); i++ {
+			if a[i] != b[i] {
+				return false
+			}
+		}
+		return true
+	}
 
-	setField := func(name string, x any) error {
+	setField := func(name string, x any, isBlockName bool) error {
 		var f reflect.StructField
 		var ok bool
 		if len(tagged) > 0 {
@@ -101,12 +115,13 @@ func copyBlock(v reflect.Value, block Block) error {
 		if x == nil {
 			return fmt.Errorf("block.%s has nil value", name)
 		}
-		if name != "Name" || block.Name != "" {
-			path := fmt.Sprint(f.Index)
-			if prev, dup := stored[path]; dup {
-				return fmt.Errorf("struct.%s is mapped from both block.%s and block.%s", f.Name, prev, name)
+		if !isBlockName || block.Name != "" {
+			for _, prev := range stored {
+				if overlaps(prev.index, f.Index) {
+					return fmt.Errorf("struct.%s is mapped from both block.%s and block.%s", f.Name, prev.key, name)
+				}
 			}
-			stored[path] = name
+			stored = append(stored, storedAt{f.Index, name})
 		}
 		fv, err := v.FieldByIndexErr(f.Index)
 		if err != nil {
@@ -129,7 +144,7 @@ func copyBlock(v reflect.Value, block Block) error {
 		return nil
 	}
 
-	err := setField("Name", block.Name)
+	err := setField("Name", block.Name, true)
 	if err != nil {
 		if _, ok := err.(fieldMappingErr); block.Name == "" && ok {
 			goto fields
@@ -143,7 +158,7 @@ fields:
 	}
 	sort.Strings(fkeys) // fixed order, so that the outcome does not depend on map iteration
 	for _, fkey := range fkeys {
-		err = setField(fkey, block.Fields[fkey])
+		err = setField(fkey, block.Fields[fkey], false)
 		if err != nil {
 			return err
 		}
